@@ -4,10 +4,14 @@ package main
 
 import (
 	"fmt"
+	"hash/crc32"
+	"os"
+	"path/filepath"
 	"runtime"
 	"strings"
 
 	"github.com/akrylysov/pogreb"
+	"github.com/akrylysov/pogreb/fs"
 	"verif/simfs"
 )
 
@@ -100,11 +104,12 @@ func (h *harness) tailCase(r *rng, name string) {
 			starts = append(starts, off)
 			off += sz
 		}
-		kind := r.pick(12, 14, 20, 10, 10, 8, 14, 12)
+		kind := r.pick(12, 14, 20, 10, 10, 8, 14, 12, 10)
 		if len(starts) == 0 && (kind == 1 || kind == 2 || kind == 5) {
 			kind = 0
 		}
 		desc := ""
+		hugeClaim := uint32(0) // size claimed by a crafted header (bounds the cost of the real-FS runs)
 		switch kind {
 		case 0: // zeroes
 			n := []int{1, 5, 6, 9, 10, 11, 100, 512, 4096}[r.intn(9)]
@@ -154,6 +159,7 @@ func (h *harness) tailCase(r *rng, name string) {
 				vs |= 1 << 31
 			}
 			ks := []int{0, 1, 65535}[r.intn(3)]
+			hugeClaim = vs &^ (1 << 31)
 			hd := []byte{byte(ks), byte(ks >> 8), byte(vs), byte(vs >> 8), byte(vs >> 16), byte(vs >> 24)}
 			data = append(data, hd...)
 			data = append(data, make([]byte, r.intn(20))...)
@@ -172,6 +178,32 @@ func (h *harness) tailCase(r *rng, name string) {
 			desc = fmt.Sprintf("partialhdr%d", n)
 		case 7: // nothing (clean unclean shutdown)
 			desc = "none"
+		case 8: // records the writer never produces: delete flag together with a value
+			k := keys[r.intn(len(keys))]
+			v := patternBytes(1+r.intn(40), byte(r.next()))
+			hd := []byte{byte(len(k)), byte(len(k) >> 8), byte(len(v)), byte(len(v) >> 8), 0, 0x80}
+			if r.chance(50) {
+				// well-formed by the documented layout: checksum over header, key and value
+				rec := append(append(append([]byte{}, hd...), k...), v...)
+				c := crc32.ChecksumIEEE(rec)
+				rec = append(rec, byte(c), byte(c>>8), byte(c>>16), byte(c>>24))
+				data = append(data, rec...)
+				desc = "delwithvalue"
+			} else {
+				// checksum of header+key placed where a reader that ignores the value size would look;
+				// the "value" holds a well-formed put record of a key that was never written
+				rec := append(append([]byte{}, hd...), k...)
+				c := crc32.ChecksumIEEE(rec)
+				rec = append(rec, byte(c), byte(c>>8), byte(c>>16), byte(c>>24))
+				nk, nv := []byte("never"), []byte("written")
+				in := append(append([]byte{byte(len(nk)), 0, byte(len(nv)), 0, 0, 0}, nk...), nv...)
+				c2 := crc32.ChecksumIEEE(in)
+				in = append(in, byte(c2), byte(c2>>8), byte(c2>>16), byte(c2>>24))
+				rec = append(rec, in...)
+				rec[2], rec[3] = byte(len(in)), byte(len(in)>>8)
+				data = append(data, rec...)
+				desc = "delcrcafterkey"
+			}
 		}
 		im.Files[id] = data
 		h.stat("tail." + strings.TrimRight(strings.SplitN(strings.SplitN(desc, "@", 2)[0], ":", 2)[0], "0123456789"))
@@ -199,6 +231,15 @@ func (h *harness) tailCase(r *rng, name string) {
 		}
 		h.emit("open kind=recover res=ok seed=%d", db2.VerifHashSeed())
 		h.emit("alloc bytes=%d filebytes=%d", after.TotalAlloc-before.TotalAlloc, total)
+		if (kind == 4 && hugeClaim <= 64<<20) || (kind == 3 && r.chance(30)) {
+			// the same image on the real file systems: their Slice/ReadAt paths allocate differently
+			for _, fsName := range []string{"os", "mmap"} {
+				if a, ok := h.osAlloc(im, o2, fsName); ok {
+					h.emit("alloc bytes=%d filebytes=%d fs=%s", a, total, fsName)
+					h.stat("tail.alloc." + fsName)
+				}
+			}
+		}
 		h.emit("rstate %s", observe(db2, keys))
 		h.emit("segs %s", segsLine(db2, func(n string) []byte { b, _ := fs2.Snapshot().File(dbDir + "/" + n); return b }))
 		h.emit("%s", dumpLine(db2))
@@ -244,4 +285,40 @@ func (h *harness) runTails(seed uint64, cases int) {
 	for i := 0; i < cases; i++ {
 		h.tailCase(r, fmt.Sprintf("tails-%d-%d", seed, i))
 	}
+}
+
+// osAlloc writes the image to a temporary directory and measures what the recovering Open allocates
+// on a real file system.
+func (h *harness) osAlloc(im *simfs.Image, opts *pogreb.Options, fsName string) (uint64, bool) {
+	tmp, err := os.MkdirTemp("", "tailos")
+	if err != nil {
+		return 0, false
+	}
+	defer os.RemoveAll(tmp)
+	dir := filepath.Join(tmp, "db")
+	if err := os.MkdirAll(dir, 0755); err != nil {
+		return 0, false
+	}
+	for n, fid := range im.Dir {
+		if strings.HasPrefix(n, dbDir+"/") {
+			if err := os.WriteFile(filepath.Join(dir, strings.TrimPrefix(n, dbDir+"/")), im.Files[fid], 0640); err != nil {
+				return 0, false
+			}
+		}
+	}
+	o := *opts
+	o.FileSystem = fs.OS
+	if fsName == "mmap" {
+		o.FileSystem = fs.OSMMap
+	}
+	var before, after runtime.MemStats
+	runtime.GC()
+	runtime.ReadMemStats(&before)
+	db, err := pogreb.Open(dir, &o)
+	runtime.ReadMemStats(&after)
+	if err != nil {
+		return 0, false
+	}
+	db.Close()
+	return after.TotalAlloc - before.TotalAlloc, true
 }
